@@ -28,7 +28,8 @@ import (
 // (reportUsagePeriodically/sendUsageReport), agent.usageTracker, the OTLP
 // report encoding, metrics.MultiMetrics as the source of cumulative counters.
 // Stub: the OpAMP client (fake; the outcome of every send attempt comes from
-// the plan: success, pending-then-success, pending-then-failure, failure).
+// the plan: success, pending-then-success, pending-then-failure,
+// pending-then-pending, failure).
 //
 // Oracle: no data point < 0 in any report; whenever no send is in flight, per
 // signal: sum(successfully sent reports) + (what the tracker still holds) =
@@ -37,7 +38,7 @@ import (
 func init() {
 	Register(&Check{
 		ID: "C34", World: "E/agent-usage", Gen: genAgent, Run: runAgent,
-		OwnProbes: []string{"send_failed", "send_pending_then_ok", "send_pending_then_failed", "two_consecutive_failures", "conservation_checked_after_failure"},
+		OwnProbes: []string{"send_failed", "send_pending_then_ok", "send_pending_then_failed", "send_pending_then_pending", "two_consecutive_failures", "conservation_checked_after_failure"},
 		Real:      []string{"agent.Agent (healthCheck collection loop, reportUsagePeriodically, sendUsageReport)", "agent.usageTracker", "agent OTLP report encoding", "metrics.MultiMetrics"},
 		Stub:      []string{"OpAMP client (fake; per-attempt outcome from the plan)", "clock (SimClock)", "config (MockConfig)", "health reporter (mock)"},
 	})
@@ -79,6 +80,16 @@ func (f *fakeOpAMP) SendCustomMessage(m *protobufs.CustomMessage) (chan struct{}
 		// this is the single retry after a pending answer
 		mode := w.pendingRetry
 		w.pendingRetry = ""
+		if mode == "pending" {
+			// yet another custom message got in first: still not queued; the channel
+			// is again the other message's
+			w.out.Probe("send_pending_then_pending")
+			w.noteFailure()
+			w.inFlight = false
+			ch := make(chan struct{})
+			w.drv.AtAbs(time.Now().Add(w.sendDelay), "opamp", fmt.Sprintf("pending-again-clears/%d", f.attempts), func() { close(ch) })
+			return ch, types.ErrCustomMessagePending
+		}
 		if mode == "fail" {
 			w.out.Probe("send_pending_then_failed")
 			w.noteFailure()
@@ -97,7 +108,7 @@ func (f *fakeOpAMP) SendCustomMessage(m *protobufs.CustomMessage) (chan struct{}
 		w.noteFailure()
 		w.inFlight = false
 		return nil, fmt.Errorf("simulated send failure")
-	case "pending_ok", "pending_fail":
+	case "pending_ok", "pending_fail", "pending_pending":
 		w.out.Fault("opamp_send_pending")
 		w.pendingRetry = strings.TrimPrefix(outcome, "pending_")
 		ch := make(chan struct{})
@@ -198,7 +209,7 @@ func genAgent(r *Rng, tier string, p *Plan) {
 	failRate := PickOf(r, 0.0, 0.2, 0.5, 0.8)
 	for a := 1; a <= attempts; a++ {
 		if r.Bool(failRate) {
-			p.Add(Op{K: "outcome", I: int64(a), S: PickOf(r, "fail", "fail", "pending_ok", "pending_fail")})
+			p.Add(Op{K: "outcome", I: int64(a), S: PickOf(r, "fail", "fail", "pending_ok", "pending_fail", "pending_pending")})
 		}
 	}
 	p.SortOps()
